@@ -20,7 +20,7 @@ is the tag.  ``body`` below is again a list of statements, ``e`` an expression, 
     ["out", e]                                    {{ e }}
     ["if", [[e, body], ...], else_body|None]      if / elif* / else
     ["for", [target names], e_iter, body, else_body|None, e_test|None, recursive(bool)]
-    ["break"] ["continue"]                        only directly (through if / with) inside a loop body without else
+    ["break"] ["continue"]                        only directly (through if / with) inside a loop body
     ["set", [names], [e, ...]]                    {% set a, b = e1, e2 %}   (same arity)
     ["setblock", name, filter|None, body]         {% set a [| filter] %}...{% endset %}
     ["nsnew", ns, [[attr, e], ...]]               {% set ns = namespace(attr=e, ...) %}
@@ -66,13 +66,16 @@ LOOPATTRS = ("index", "index0", "revindex", "revindex0", "first", "last", "lengt
 CMPOPS = ("==", "!=", "<", "<=", ">", ">=")
 EXPR_FILTERS = ("default", "length", "upper", "lower", "join", "first")
 BLOCK_FILTERS = (["upper", []], ["lower", []], ["length", []], ["default", [["str", "-"], ["bool", True]]])
+# a filter *section* whose filter returns a non-string makes the template yield a non-string (TypeError in
+# concat) -- not a scoping matter, so filter sections only use string-valued filters; block set may use length
+SECTION_FILTERS = (["upper", []], ["lower", []], ["default", [["str", "-"], ["bool", True]]])
 
 # Identifier pools for alpha-renaming / non-aliasing (DESIGN.md section 3.2).  Not in any pool, on purpose:
 #   names Jinja's grammar reserves or gives a meaning in some position (true false none True False None and or
 #   not in is if else elif recursive as with without context-less keywords of statements we print), the special
 #   names loop / caller / varargs / kwargs / self / super, the default globals (range dict lipsum cycler joiner
-#   namespace), and the names of findings F22/F23 (__debug__, _loop_vars, _block_vars: keyword-argument code
-#   generation, property C01).
+#   namespace), and _loop_vars / _block_vars (keyword arguments of that name are a template error since the
+#   fix of F23).
 IDENT_CLASSES = {
     "ascii": ["x", "y", "foo", "Foo", "FOO", "x1", "x_", "_x", "__x", "_", "__", "a_b", "A", "B", "item", "value",
               "i", "j", "k", "a1", "b2", "aa", "ab", "ba"],
@@ -87,7 +90,7 @@ IDENT_CLASSES = {
                   "loop_render_func", "depth", "fiter", "auto_await", "auto_aiter", "to_string", "internalcode",
                   "l_0_", "l_", "l_0", "loop_", "loops", "caller_", "callers", "self_", "kwargs_", "varargs_"],
     "dunder": ["__init__", "__class__", "__dict__", "__name__", "__builtins__", "__import__", "__x__", "__getattr__",
-               "__call__", "__html__", "_Namespace__attrs", "__loader__", "__file__"],
+               "__call__", "__html__", "_Namespace__attrs", "__loader__", "__file__", "__debug__"],
     "unicode": ["\u00e9", "\u00f1and\u00fa", "\u540d\u524d", "\u043f\u0435\u0440\u0435\u043c", "\u03b1", "\u03a9", "\u00df",
                 "\u0131", "x\u0327", "a\u00b7b", "\u0430", "\u0435", "\u03bf", "\u00e4b", "b\u00e4", "\u00c5", "\u4e2d",
                 "\u05d0", "\u0639\u0631\u0628", "\ud55c\uae00", "\u1e93\u0308"],
@@ -96,7 +99,7 @@ ALL_IDENTS = [i for k in sorted(IDENT_CLASSES) for i in IDENT_CLASSES[k]]
 IDENT_CLASS_OF = {i: k for k in IDENT_CLASSES for i in IDENT_CLASSES[k]}
 RESERVED = {"true", "false", "none", "True", "False", "None", "and", "or", "not", "in", "is", "if", "else", "elif",
             "recursive", "loop", "caller", "varargs", "kwargs", "self", "super", "range", "dict", "lipsum", "cycler",
-            "joiner", "namespace", "__debug__", "_loop_vars", "_block_vars"}
+            "joiner", "namespace", "_loop_vars", "_block_vars"}
 
 
 def nfkc_stable(s):
@@ -487,25 +490,26 @@ class _Gen:
 
     def seqish(self, lex):
         if self.chance(3, 4):
-            return ["name", self.pick(("s", "t", "s", self.var()))]
+            return ["name", self.pick(("s", "t", "s", "t", "s", self.var()))]
         return ["list", [self.atom(lex) for _ in range(self.i(0, 3))]]
 
     def expr(self, lex, d=2):
         if d <= 0:
             return self.atom(lex)
         e = self.errors
-        table = [("atom", 20), ("cat", 8), ("add", 3 if e else 0), ("sub", 1 if e else 0), ("cmp", 3), ("defined", 2),
+        table = [("atom", 20), ("cat", 8), ("add", 2 if e else 0), ("sub", 1 if e else 0), ("cmp", 3), ("defined", 2),
                  ("filt", 4), ("list", 2), ("cond", 2), ("bool", 2),
-                 ("nsattr", 5 if lex.nss else (1 if e else 0)),
+                 ("nsattr", 5 if lex.nss else 0),
                  ("loopattr", 6 if lex.loopvis else 0),
-                 ("call", (8 if self.callable_macros(lex) else (1 if e else 0)) if lex.mrank > 0 else 0),
-                 ("caller", 8 if lex.in_macro else 0),
+                 ("call", 8 if self.callable_macros(lex) else 0),
+                 ("caller", 3 if lex.in_macro else 0),
                  ("looprec", 10 if lex.rec is not None else 0)]
         k = self.weighted(table)
         if k == "atom":
             return self.atom(lex)
         if k in ("add", "sub"):
-            return [k, self.expr(lex, d - 1), ["int", self.i(0, 3)] if self.chance(2, 3) else self.atom(lex)]
+            left = ["name", self.scalar()] if self.chance(3, 4) else self.expr(lex, d - 1)
+            return [k, left, ["int", self.i(0, 3)] if self.chance(3, 4) else self.atom(lex)]
         if k == "cat":
             return ["cat", self.expr(lex, d - 1), self.expr(lex, d - 1)]
         if k == "cmp":
@@ -554,7 +558,7 @@ class _Gen:
         return self.expr(lex, d)
 
     def ns_name(self, lex):
-        if lex.nss and (not self.errors or self.chance(9, 10)):
+        if lex.nss and (not self.errors or self.chance(19, 20)):
             return self.pick(sorted(lex.nss))
         return self.pick(NSS)
 
@@ -563,11 +567,10 @@ class _Gen:
 
     def call(self, lex, d, want_caller=False):
         known = self.callable_macros(lex)
-        if want_caller:
-            pref = [m for m in known if lex.macros[m][1]]
-            if pref and self.chance(5, 6):
-                known = pref
-        if known and (not self.errors or self.chance(11, 12)):
+        pref = [m for m in known if lex.macros[m][1] == want_caller]
+        if pref and self.chance(7, 8):
+            known = pref
+        if known and (not self.errors or self.chance(19, 20)):
             m = self.pick(known)
             params = lex.macros[m][0]
             npos = self.i(0, len(params))
@@ -585,10 +588,33 @@ class _Gen:
     def block(self, lex, lo=0, hi=4):
         n = self.i(lo, hi)
         out = []
+        defined = []
         for _ in range(n):
             if self.budget <= 0:
                 break
-            out.append(self.stmt(lex))
+            s = self.stmt(lex)
+            out.append(s)
+            if s[0] == "macro" and s[1] in MACROS[: lex.mrank]:
+                defined.append((len(out) - 1, s[1]))
+        # a macro defined here is usually also used here: a call (or call block) somewhere after the definition,
+        # often with an assignment of a pool name in between (closure reads of later-assigned variables)
+        for idx, name in reversed(defined):
+            if lex.macros.get(name) is None or not self.chance(3, 4):
+                continue
+            self.budget -= 1
+            params, has_caller = lex.macros[name]
+            npos = self.i(0, len(params))
+            call = ["call", name, [self.expr(lex, 1) for _ in range(npos)],
+                    [[q, self.expr(lex, 1)] for q in params[npos:] if self.chance(1, 3)]]
+            if has_caller:
+                cps = [q for q in SCALARS[: self.i(0, 2)]]
+                use = ["callblock", cps, call, self.block(lex.child(loopctl=False, loopvis=False, rec=None, in_macro=False), 1, 2)]
+            else:
+                use = ["out", call]
+            pos = self.i(idx + 1, len(out))
+            out.insert(pos, use)
+            if self.chance(1, 2):
+                out.insert(self.i(idx + 1, pos), ["set", [self.var()], [self.expr(lex, 1)]])
         return out
 
     def stmt(self, lex):
@@ -598,7 +624,7 @@ class _Gen:
                  ("loopctl", 3 if lex.loopctl else 0)]
         if deep:
             table += [("if", 5), ("for", 6 if lex.loops < 3 else 0), ("with", 3), ("macro", 4), ("setblock", 2), ("filter", 1),
-                      ("callblock", 3 if self.callable_macros(lex) else 0), ("autoescape", 1 if self.autoescape else 0)]
+                      ("callblock", (6 if any(lex.macros[m][1] for m in self.callable_macros(lex)) else 1) if self.callable_macros(lex) else 0), ("autoescape", 1 if self.autoescape else 0)]
         k = self.weighted(table)
         if k == "text":
             return ["text", self.pick(_TEXTS)]
@@ -653,7 +679,7 @@ class _Gen:
             # break/continue inside a buffering block would drop the buffered output (undocumented): excluded
             return ["setblock", self.var(), f, self.block(lex.child(loopctl=False), 1, 3)]
         if k == "filter":
-            return ["filter", self.pick(BLOCK_FILTERS), self.block(lex.child(loopctl=False), 1, 3)]
+            return ["filter", self.pick(SECTION_FILTERS), self.block(lex.child(loopctl=False), 1, 3)]
         if k == "autoescape":
             return ["autoescape", self.chance(1, 2), self.block(lex.child(share=True), 1, 3)]
         raise AssertionError(k)
@@ -667,7 +693,7 @@ class _Gen:
             t2 = self.var()
             if t2 != t1:
                 targets.append(t2)
-        ik = self.weighted([("s", 5), ("t", 3), ("var", 3), ("list", 3), ("expr", 1)])
+        ik = self.weighted([("s", 6), ("t", 4), ("var", 1), ("list", 4), ("expr", 1)])
         if recursive:
             ik = self.weighted([("t", 5), ("s", 1), ("var", 1)])
         if ik in ("s", "t"):
@@ -683,8 +709,7 @@ class _Gen:
             it = self.expr(lex, 1)
         test = self.total_expr(lex) if self.chance(1, 4) else None
         has_else = self.chance(1, 3)
-        # known finding (loop else + break/continue): a loop with an else branch gets no break/continue of its own
-        body = self.block(lex.child(loopctl=not has_else, loopvis=True, rec=targets[0] if recursive else None,
+        body = self.block(lex.child(loopctl=True, loopvis=True, rec=targets[0] if recursive else None,
                                     loops=lex.loops + 1), 1, 4)
         # the else branch runs outside the loop: break/continue there would address an enclosing loop (undocumented)
         else_ = self.block(lex.child(loopctl=False), 1, 2) if has_else else None
@@ -709,7 +734,10 @@ class _Gen:
                 e = self.atom_not(lex, later)
             defaults.append(e)
         # loop.* / break / continue / loop() across the macro boundary are not generated; body may call m<j>, j<k
-        body = self.block(lex.child(loopctl=False, loopvis=False, rec=None, in_macro=True, mrank=min(k, lex.mrank)), 1, 4)
+        mlex = lex.child(loopctl=False, loopvis=False, rec=None, in_macro=True, mrank=min(k, lex.mrank))
+        body = self.block(mlex, 1, 4)
+        if self.chance(1, 3):
+            body.insert(self.i(0, len(body)), ["out", ["caller", [self.atom(mlex) for _ in range(self.i(0, 2))]]])
         lex.macros[name] = (params, _has_caller_expr(body))
         return ["macro", name, params, defaults, body]
 
@@ -730,8 +758,8 @@ def programs(draw, max_depth=4, max_nodes=25, autoescape=False, errors=True):
 
 
 _SCALAR_VALUES = st.one_of(
-    st.integers(0, 3), st.integers(0, 3), st.integers(0, 3), st.sampled_from(["", "p", "q", "Ab"]),
-    st.lists(st.integers(0, 3), max_size=3),
+    st.integers(0, 3), st.integers(0, 3), st.integers(0, 3), st.integers(0, 3), st.integers(0, 3), st.integers(0, 3),
+    st.sampled_from(["", "p", "q", "Ab"]), st.lists(st.integers(0, 3), max_size=3),
 )
 _ITEMS = st.one_of(st.integers(0, 3), st.integers(0, 3), st.sampled_from(["", "p", "q"]))
 _NESTED = st.recursive(st.integers(0, 3), lambda c: st.lists(c, max_size=3), max_leaves=6)
